@@ -84,10 +84,18 @@ def make_field(df, m, emb, arr, names, units, vdims, dtype=None):
     dtype = dtype or _R_DTYPE[0]
     a = fld.unflatten(arr, m["n"], dtype=dtype or float)
     salt = sum(int(v) for v in m["n"]) + nv + int(m["c"][0]) // 4
+    kw = {}
+    ncell = int(np.prod(m["n"]))
+    if ncell > 1 and (salt + int(abs(float(np.sum(a))))) % 2 == 0:
+        # a partial validity mask: integrals and means are sums over ALL cells of the mesh ("the sum of the cell values times
+        # the cell volume", "the integral divided by the integrated extent"); the mask plays no part in them (seeded change
+        # C06-23 averaged over the valid cells only)
+        mask = (np.arange(ncell) % 3 != 1).reshape(tuple(int(v) for v in m["n"]), order="F")
+        kw["valid"] = mask
     if dtype is None:
-        return fld.lived(df.Field(mesh, nvdim=nv, value=a, vdims=vdims), salt)
+        return fld.lived(df.Field(mesh, nvdim=nv, value=a, vdims=vdims, **kw), salt)
     # the dtype is also given explicitly (Field.dtype is then set): results must not be cast back to it (seed C06-3)
-    return fld.lived(df.Field(mesh, nvdim=nv, value=a, vdims=vdims, dtype=dtype), salt)
+    return fld.lived(df.Field(mesh, nvdim=nv, value=a, vdims=vdims, dtype=dtype, **kw), salt)
 
 
 # ------------------------------------------------------------------ executing one operation
